@@ -77,6 +77,8 @@ def doc_text(spec):
         body = "|\n" + "".join("  line %d of the block\n" % i for i in range(n // 20 + 1))
     elif kind == "nonascii":
         body = "".join("- caf\xe9 \u65e5\u672c %d\n" % i for i in range(n))
+    elif kind == "cjk":        # almost every character takes three bytes in UTF-8 (a text stream counts characters, LibYAML bytes)
+        body = "".join("- \u65e5\u672c\u8a9e\u306e\u30c6\u30ad\u30b9\u30c8\u884c\u3001\u756a\u53f7 %d\n" % i for i in range(n))
     else:
         raise AssertionError(kind)
     if kind in ("long-quoted", "literal", "small", "empty") or True:
@@ -357,7 +359,8 @@ def cases():
         st.tuples(st.just("long-quoted"), st.sampled_from([100, 4000, 5000, 9000, 20000, 50000]), st.booleans()),
         st.tuples(st.just("long-plain"), st.sampled_from([100, 900, 4200, 9000, 17000]), st.booleans()),
         st.tuples(st.just("literal"), st.sampled_from([100, 4000, 12000]), st.booleans()),
-        st.tuples(st.just("nonascii"), st.sampled_from([5, 300, 700]), st.booleans()))
+        st.tuples(st.just("nonascii"), st.sampled_from([5, 300, 700]), st.booleans()),
+        st.tuples(st.just("cjk"), st.sampled_from([5, 400, 1500, 4000]), st.booleans()))
     bad = st.one_of(st.none(), st.none(), st.tuples(st.integers(0, 20), st.sampled_from(sorted(BAD))))
     schedule = st.one_of(st.just([4096]), st.just([4096]), st.just([65536]), st.lists(st.sampled_from([1, 7, 64, 1000, 4095, 4096, 4097, 16384, 20000]), min_size=1, max_size=8))
     return st.tuples(st.lists(spec, min_size=1, max_size=10), bad, st.sampled_from(["docs", "comments"]), st.sampled_from([0, 1, 3, 8, 20]),
